@@ -13,6 +13,7 @@ import LlgVerif.Proofs.IntRangeMain
 import LlgVerif.Proofs.FloatRange
 import LlgVerif.Proofs.FloatPos
 import LlgVerif.Proofs.FloatHalf
+import LlgVerif.Proofs.FloatHalf2
 import LlgVerif.Proofs.NumSat
 namespace LlgVerif
 open Rx
@@ -476,6 +477,32 @@ theorem c08_float_le (r : FB) (ri : Bool) (p : PR) (h : floatLe r ri = .ok p)
       (∃ ip fd, AllDig fd ∧ w = 45 :: (dec ip ++ fracBytes fd) ∧ (0 < ip ∨ (0 = ip ∧ fracLT [] fd))) ∨
       (∃ ip fd, AllDig fd ∧ w = dec ip ++ fracBytes fd ∧ leB ri ip fd r.ip r.fd) :=
   floatLe_pos_lang r ri p h hneg hr0 hr hrn w
+
+/-- **C08 (only a lower decimal bound, `left < 0`).**  `-` and a literal of positive magnitude `≤ |left|`
+(`<` when exclusive), or any non-negative literal. -/
+theorem c08_float_ge_neg (l : FB) (li : Bool) (p : PR) (h : floatGe l li = .ok p)
+    (hneg : l.neg = true) (hz : l.isZero = false) (hl : AllDig l.fd) (hln : NTZ l.fd)
+    (hl0 : 0 < l.ip ∨ (0 = l.ip ∧ fracLT [] l.fd)) (w : List B) :
+    lang p.rx w ↔
+      (∃ ip fd, AllDig fd ∧ w = 45 :: (dec ip ++ fracBytes fd) ∧
+        (0 < ip ∨ (0 = ip ∧ fracLT [] fd)) ∧ leB li ip fd l.ip l.fd) ∨
+      (∃ ip fd, AllDig fd ∧ w = dec ip ++ fracBytes fd) :=
+  floatGe_neg_lang l li p h hneg hz hl hln hl0 w
+
+/-- **C08 (only an upper decimal bound, `right < 0`).**  `-` and a literal of magnitude `≥ |right|`. -/
+theorem c08_float_le_neg (r : FB) (ri : Bool) (p : PR) (h : floatLe r ri = .ok p)
+    (hneg : r.neg = true) (hz : r.isZero = false) (hr : AllDig r.fd) (hrn : NTZ r.fd) (w : List B) :
+    lang p.rx w ↔ ∃ ip fd, AllDig fd ∧ w = 45 :: (dec ip ++ fracBytes fd) ∧ geB ri ip fd r.ip r.fd :=
+  floatLe_neg_lang r ri p h hneg hz hr hrn w
+
+/-- **C08 (only an upper decimal bound, `right = 0`).**  The negative literals of positive magnitude and,
+for an inclusive bound, every spelling of zero (`0`, `0.0`, `0.00`, ...). -/
+theorem c08_float_le_zero (r : FB) (ri : Bool) (p : PR) (h : floatLe r ri = .ok p)
+    (hz : r.isZero = true) (w : List B) :
+    lang p.rx w ↔
+      (∃ ip fd, AllDig fd ∧ w = 45 :: (dec ip ++ fracBytes fd) ∧ (0 < ip ∨ (0 = ip ∧ fracLT [] fd))) ∨
+      (ri = true ∧ ∃ fd, (fd = [] ∨ (fd ≠ [] ∧ AllZero fd)) ∧ w = dec 0 ++ fracBytes fd) :=
+  floatLe_zero_lang r ri p h hz w
 
 /-- **C08 (empty combinations).**  With bounds and `multipleOf` brought to a common decimal scale
 (for integers the step is `lcm(multipleOf, 1)`), `hasMult` says "not empty" exactly when some
